@@ -302,7 +302,10 @@ impl Finds {
                                 // own tables normalise it, and at most one edit away from the title word
                                 let want = cv(&oracle::norm_word(lang, &q));
                                 let word = cv(&oracle::norm_word(lang, &s(&cs)));
-                                if e.iter().any(|c| accented.contains(c)) && oracle::stable(lobj, &q, &[&want[..]]) && oracle::lev(&want, &word) <= 1 {
+                                // (only for title words that are fixed points of the language's tables: under a chained table a
+                                // stored word can still hold a letter that a query would see reduced once more)
+                                let chain = oracle::chain_letters(lang);
+                                if !cs.iter().any(|c| chain.contains(c)) && e.iter().any(|c| accented.contains(c)) && oracle::stable(lobj, &q, &[&want[..]]) && oracle::lev(&want, &word) <= 1 {
                                     cx.count("typo letter that is an accented letter of the language");
                                 } else {
                                     cx.count("skipped_unstable");
